@@ -304,6 +304,19 @@ theorem role_old_witness :
     storeJoin {} c "n2" "a2" true = ([⟨"n0", "a0", .voter⟩, ⟨"n1", "a1", .voter⟩, ⟨"n2", "a2", .voter⟩], .ok) := by
   decide
 
+/-- **Why `Store.Join` removes first.** raft's AddNonvoter on a server that is currently a VOTER
+only rewrites its address and leaves the suffrage (transcribed in `addNonvoterGo`). Without
+the removal step (`finishJoin` applied directly to the configuration), a voter that re-joins
+on a new address asking to be a non-voter is reported as joined and stays a voter; with the
+loop of `Store.Join` it gets the role it asked for. -/
+theorem role_needs_remove_witness :
+    let c : Config := [⟨"n0", "a0", .voter⟩, ⟨"n1", "a1", .voter⟩, ⟨"n2", "a2", .voter⟩]
+    finishJoin c "n1" "b1" false = ([⟨"n0", "a0", .voter⟩, ⟨"n1", "b1", .voter⟩, ⟨"n2", "a2", .voter⟩], .ok) ∧
+    storeJoin {} c "n1" "b1" false = ([⟨"n0", "a0", .voter⟩, ⟨"n2", "a2", .voter⟩, ⟨"n1", "b1", .nonvoter⟩], .ok) ∧
+    -- the other direction needs no removal: AddVoter promotes in place
+    finishJoin [⟨"n0", "a0", .voter⟩, ⟨"n1", "a1", .nonvoter⟩] "n1" "b1" true =
+      ([⟨"n0", "a0", .voter⟩, ⟨"n1", "b1", .voter⟩], .ok) := by decide
+
 /-! ### reaping -/
 
 /-- **Reaping.** The reap branch removes a node only if that node is a member, the
